@@ -29,10 +29,10 @@ class RcuBase(CheckDef):
     programs = {
         'quick': [('1;3/0/5', {}, 700, 'random'), ('%s;%s;%s/0;0/5;%s' % (W, W, Er, Er), {}, 800, 'random'),
                   ('1;2;3/3;4/0;5;0', {}, 600, 'random'), ('2/3/3/0,8', {}, 400, 'random'), ('1;1/3/3;3/8', {}, 500, 'random'), ('1,9;9;3/8;8/5;8', {}, 400, 'random'), ('1;7;4;3/0;0;0/5;5;5', {}, 400, 'pct'),
-                  ('1;3;2;3/0;0/0;0', {}, 300, 'solo')],
+                  ('1;3;2;3/0;0/0;0', {}, 300, 'solo'), ('1;3/0/5', {}, 2500, 'pb1')],
         'thorough': [('1;3/0/5', {}, 20000, 'random'), ('%s;%s;%s/0;0/5;%s' % (W, W, Er, Er), {}, 25000, 'random'),
                      ('1;2;3/3;4/0;5;0', {}, 20000, 'random'), ('2/3/3/0,8', {}, 15000, 'random'), ('1;1/3/3;3/8', {}, 15000, 'random'), ('1,9;9;3/8;8/5;8', {}, 10000, 'random'), ('1;7;4;3/0;0;0/5;5;5', {}, 15000, 'pct'),
-                     ('1;3;2;3/0;0/0;0', {}, 10000, 'solo'), ('%s;%s;%s;%s/%s;%s;0/0;5;0;5/5;0;%s' % (W, W, Er, Er, W, Er, Er), {}, 25000, 'random'),
+                     ('1;3;2;3/0;0/0;0', {}, 10000, 'solo'), ('1;3/0/5', {}, 300000, 'pb2'), ('2;3/3/0', {}, 200000, 'pb2'), ('%s;%s;%s;%s/%s;%s;0/0;5;0;5/5;0;%s' % (W, W, Er, Er, W, Er, Er), {}, 25000, 'random'),
                      ('1;1;1;4;3/0;0;0/3;4;0', {}, 20000, 'pct')],
     }
     assumptions = ['bounded: exhaustive TLC results for the small configurations named; larger ones by TLC simulation and by validated real executions',
